@@ -165,6 +165,13 @@ func TestGovcBounded(t *testing.T) {
 		"(list $a $missing)",
 		"(str \"no placeholder here\")",
 		"#{$a}",
+		// sources that themselves begin like a preamble, with blank lines, or with layout that matters
+		";; $a 1\n(list $a)",
+		";; $DEBUG true\n(list $a $DEBUG)",
+		";; $a is the input of this program\n$a",
+		"\n\n(list $a)",
+		"   (list $a)",
+		"(list ¬  two\n   lines¬ $a)",
 	}
 	names := []string{"$a", "$b-1", "$x_y"}
 	cases, distinct := 0, 0
@@ -246,7 +253,7 @@ func TestGovcBounded(t *testing.T) {
 func init() {
 	register(&Property{
 		ID: "C15", Level: "exploration",
-		Technique: "BOUNDED stand-in (not a proof; the contract-based verifier cannot reach this property: the transport goes through PRINT's escape codec, a regular expression, line splitting and the third-party scanner): the real AddPreamble and READWithPreamble are run, through a test injected with go test -overlay, on 15 source shapes (placeholders in code, quoted data, collections, strings, comments, several lines, a missing name) crossed with 45 data values (scalars, strings with quotes, backslashes, newlines, tabs, semicolons, brackets, preamble-looking lines, the raw-string quote, JSON-looking single- and multi-line strings that print in raw form, keywords, symbols, nested collections; every string of length 2-3 over a 10-character alphabet in the thorough tier) for one, two and three names; the AST is compared with reader.Read_str(source, table) by an independent structural equality",
+		Technique: "BOUNDED stand-in (not a proof; the contract-based verifier cannot reach this property: the transport goes through PRINT's escape codec, a regular expression, line splitting and the third-party scanner): the real AddPreamble and READWithPreamble are run, through a test injected with go test -overlay, on 21 source shapes (placeholders in code, quoted data, collections, strings, comments, several lines, a missing name, sources that begin with preamble-looking comment lines, blank lines or indentation, a multi-line raw string) crossed with 45 data values (scalars, strings with quotes, backslashes, newlines, tabs, semicolons, brackets, preamble-looking lines, the raw-string quote, JSON-looking single- and multi-line strings that print in raw form, keywords, symbols, nested collections; every string of length 2-3 over a 10-character alphabet in the thorough tier) for one, two and three names; the AST is compared with reader.Read_str(source, table) by an independent structural equality",
 		DesignRef: "DESIGN.md §4 C15",
 		Explain:   "bounded: exhaustive over the stated family only; says nothing beyond it",
 		Run:       runC15,
@@ -254,6 +261,6 @@ func init() {
 }
 
 func runC15(c *CheckCtx) {
-	c.runBounded("", c15Harness, "15 source texts x (no value, each of 45 values for $a) plus 3 multi-name sources x 45 value triples (quick); the thorough tier adds every string of length 2-3 over {a \" \\ newline ¬ { } space ; $} and their JSON-looking variants as values; distinct = distinct (source, assignment) pairs; non-trivial = every case (each is transported, read on both routes and compared)", true)
+	c.runBounded("", c15Harness, "21 source texts x (no value, each of 45 values for $a) plus 3 multi-name sources x 45 value triples (quick); the thorough tier adds every string of length 2-3 over {a \" \\ newline ¬ { } space ; $} and their JSON-looking variants as values; distinct = distinct (source, assignment) pairs; non-trivial = every case (each is transported, read on both routes and compared)", true)
 	c.assumptions["bounded stand-in: nothing is claimed outside the enumerated family"] = true
 }
